@@ -22,7 +22,7 @@ RULE = ("connected target graphs on 2..6 (thorough ..7) vertices (random, paths,
         "rgs (repeater graphs)}, lc_orbit_depth, sort_emit, allow_exhaustive, seed; noise off. One evaluation = one solve(); distinct = "
         "distinct (target, setting) digest; non-trivial = the run returned more than one entry or an entry whose graph differs from the target")
 ASSUMPTIONS = ["label_map=True is not varied (iso_finder then returns a tuple the solver does not unpack); Monte-Carlo / noise scoring is C06's "
-               "subject", "LC-orbit membership by exhaustive orbit (n <= 7)"]
+               "subject", "LC-orbit membership by exhaustive orbit (n <= 7); for the dense 8-9 vertex targets by equality of the cut-ranks of all bipartitions (necessary condition only)"]
 TIMEOUT = {"quick": 900, "thorough": 7200}
 METHODS = [None, "lc_with_iso", "random", "random_with_iso", "random_with_rep", "depth_first", "linear", "rgs"]
 
@@ -33,7 +33,7 @@ def shards(tier, seed):
 
 def floors(tier):
     f = {"solves": 70, "solves:default_construction": 3, "entries:checked": 120, "entries:graph_differs_from_target": 30, "generates:branches": 200,
-         "generates:compiles": 300, "entries:with_conversion_gates": 20, "targets:permuted_node_insertion_order": 5, "result_table:sorted": 30, "solves:with_explicit_empty_noise_map": 8}
+         "generates:compiles": 300, "entries:with_conversion_gates": 20, "targets:permuted_node_insertion_order": 5, "result_table:sorted": 30, "solves:with_explicit_empty_noise_map": 8, "solves:dense_8_9_vertices": 12}
     for mth in METHODS:
         f["method:" + str(mth)] = 3
     return f
@@ -48,6 +48,10 @@ def run_shard(spec, ctx):
     DagMonitor(lambda k, d: ctx.violation("dag:" + k, dict(state["case"] or {}), d, key=f"dag:{k}"), None).install()
     for i in range(spec["count"]):
         check_case([spec["seed"], 10, spec["shard"], i], spec["nmax"], ctx, m, mon, state)
+    # dense targets on 8-9 vertices (four or more emitters, generators supported on many emitters): the branch of the inner
+    # solver that small targets never reach; cheap settings only
+    for i in range(1 if spec["count"] <= 5 else 6):
+        check_case([spec["seed"], 10, spec["shard"], i, 1], 9, ctx, m, mon, state)
 
 
 def replay(case, ctx):
@@ -96,6 +100,14 @@ def check_case(cseed, nmax, ctx, m, mon, state):
     from graphiq.solvers.alternate_target_solver import AlternateTargetSolver, AlternateTargetSolverSetting
     rng = np.random.default_rng(cseed)
     A, rep, setting, seed, default = gen(rng, nmax)
+    if len(cseed) == 5:
+        n = int(rng.integers(8, 10))
+        A = graphs.random_connected_graph(rng, n, [0.5, 0.6][int(rng.integers(2))])
+        rep = ["nx", "g", "s"][int(rng.integers(3))]
+        default = rng.random() < 0.3
+        setting = None if default else {"n_iso_graphs": 1, "n_lc_graphs": int(rng.integers(1, 3)), "lc_method": [None, "lc_with_iso", "random"][int(rng.integers(3))],
+                                        "lc_orbit_depth": None, "sort_emit": bool(rng.integers(2)), "allow_exhaustive": False, "rel_inc_thresh": 0.2}
+        ctx.count("solves:dense_8_9_vertices")
     n = A.shape[0]
     np.random.seed(int(rng.integers(2 ** 31)))
     case = {"cseed": cseed, "nmax": nmax, "adj": A.tolist(), "presentation": rep, "setting": setting, "solver_seed": seed, "default_construction": default}
@@ -185,9 +197,17 @@ def check_case(cseed, nmax, ctx, m, mon, state):
                           key=f"entry:{kind}")
         # listed graph LC-equivalent to the relabelled target
         key = B.tobytes()
-        if key not in orbit_cache:
-            orbit_cache[key] = graphs.orbit(B)
-        if graphs.adj_to_code(G) not in orbit_cache[key]:
+        if n > 7:
+            # no exhaustive orbit at this size: the cut-rank of every bipartition is an LC invariant (necessary condition only)
+            same_ranks = np.array_equal(G, B) or all(graphs.cut_rank(G, [v for v in range(n) if (c >> v) & 1]) == graphs.cut_rank(B, [v for v in range(n) if (c >> v) & 1])
+                                                      for c in range(1, 1 << (n - 1)))
+            ctx.count("entries:lc_judged_by_cut_ranks_only")
+            not_lc = not same_ranks
+        else:
+            if key not in orbit_cache:
+                orbit_cache[key] = graphs.orbit(B)
+            not_lc = graphs.adj_to_code(G) not in orbit_cache[key]
+        if not_lc:
             ctx.violation("listed_graph_not_lc_equivalent_to_relabelled_target", case, {**entry, "listed_graph": G.tolist(), "relabelled_target": B.tolist()},
                           key="entry:graph_not_in_orbit")
         if any(np.array_equal(G, H) for H in graphs_seen):
